@@ -154,6 +154,16 @@ CHECKS['C07'] = {
     'note': 'Trusted: the stub network represents "any local network"; transformer splitting/merging is C15; no unbounded scatter proof yet.',
 }
 
+CHECKS['C12'] = {
+    'level': 'other',
+    'technique': 'bounded stand-in: run-time contract of both sorters over a grid of box layouts with a time budget + deductive call-site precondition / re-indexing proof for the naive sorter',
+    'text': ('BOUNDED (termination observed up to 5 s per page, not proved): both sorters return exactly the input region objects once each, ids/text/lines intact, polygons '
+             'unchanged as shapes, on 0..2 boxes over a 50 px grid (incl. degenerate, identical), strided triples/quadruples, hand-picked nested / mutually overlapping / grid / '
+             'column layouts, with and without de-skew. PROVED: NaiveRegionSorter.process_page calls the clustering with >= 1 sample (guard for < 2 regions) and rebuilds '
+             'page.regions by indexing the old list with the returned order.'),
+    'note': 'Trusted: sklearn DBSCAN, shapely, cv2; sort_regions has an ASSUMED contract (permutation of range(n)) backed by the bounded tier only; SmartRegionSorter recursion has no variant.',
+}
+
 NOT_APPLICABLE = {
     'C20': ('equality up to round-off of float tensors produced by torch C++ kernels through module-resident caches across calls: no contract '
             'within reach can state it over reals, no finite domain makes a bounded check exhaustive; a random differential test would be a different technique (DESIGN.md §6)'),
